@@ -28,6 +28,10 @@ class HarnessError(Exception):
     pass
 
 
+class _FirstLifeFailed(Exception):
+    pass
+
+
 class Ctx:
     """Per-run context shared by driver, party and the end-of-period tap."""
 
@@ -285,8 +289,24 @@ def run_world(sc, observe=0, snapshot=True, setup=None, mutate_constraints=True,
                 sim1 = build_sim(sc1, party1)
                 ctx1.sim = sim1
                 _CUR[0] = ctx1
-                sim1.run()
+                try:
+                    sim1.run()
+                except StepCapExceeded as e:
+                    tr.exc, tr.exc_kind, first_life_failed = e, "stepcap", True
+                except HarnessError:
+                    raise
+                except Exception as e:
+                    if classify_exception(e) == "harness":
+                        raise
+                    tr.exc, tr.exc_kind, first_life_failed = e, "sut", True
+                else:
+                    first_life_failed = False
                 _CUR[0] = ctx
+                if first_life_failed:
+                    # the fault-free first life of the same scenario already failed: that is the run's outcome
+                    ctx.sim = sim1
+                    ctx.log(("first_life_failed", type(tr.exc).__name__))
+                    raise _FirstLifeFailed()
                 reuse_evs = None
                 if sl.get("evs"):
                     reuse_evs = dict(sim1.ev_history)
@@ -381,6 +401,9 @@ def run_world(sc, observe=0, snapshot=True, setup=None, mutate_constraints=True,
                     break
         tr.sim = ctx.sim
         tr.warnings = [(w.category.__name__, str(w.message)) for w in wlist]
+    except _FirstLifeFailed:
+        tr.sim = ctx.sim
+        tr.warnings = []
     finally:
         _CUR[0] = None
         np.random.normal = orig_normal
